@@ -96,6 +96,9 @@ type c12Step struct {
 		Char string `json:"char"`
 	} `json:"pad"`
 	NoBody bool `json:"nobody"`
+	// Undeclared: the request does not announce its length (as with
+	// Transfer-Encoding: chunked): ContentLength is -1, the body reader is the same.
+	Undeclared bool `json:"undeclared"`
 }
 
 type c12Behaviour struct {
@@ -209,6 +212,11 @@ func TestVerifC12(t *testing.T) {
 					rd = bytes.NewReader(body)
 				}
 				req := httptest.NewRequest(st.Method, st.Path, rd)
+				if st.Undeclared && rd != nil {
+					req.ContentLength = -1
+					req.TransferEncoding = []string{"chunked"}
+					req.Header.Del("Content-Length")
+				}
 				handler.ServeHTTP(rec, req)
 			}()
 			out := rt.M{"kind": "step", "id": bh.ID, "i": i, "len": len(body)}
